@@ -9,8 +9,10 @@ import (
 	"fmt"
 	"net/http"
 	"net/http/httptest"
+	"reflect"
 	"sync"
 	"time"
+	"unsafe"
 
 	"github.com/Comcast/rulio/core"
 	"github.com/Comcast/rulio/cron"
@@ -26,6 +28,41 @@ type e2eSys struct {
 	sys   *sys.System
 	cr    *cron.Cron
 	names []string
+	conf  sys.SystemConfig
+	cont  sys.SystemControl
+}
+
+// restart: the process ends and a new one starts over the same storage: a new System with a new (empty) in-memory
+// cron; every location of the case is then opened by a request, as the first request after a restart would.
+func (s *e2eSys) restart() error {
+	ctx := s.ctx()
+	st, err := s.sys.PeekStorage(ctx)
+	if err != nil || st == nil {
+		return fmt.Errorf("no storage to restart on: %v", err)
+	}
+	s.cr.Kill(ctx)
+	cr, err := cron.NewCron(nil, time.Second, "c15e2e", 1000000)
+	if err != nil {
+		return err
+	}
+	go cr.Start(ctx)
+	system, err := sys.NewSystem(ctx, s.conf, s.cont, &cron.InternalCron{Cron: cr})
+	if err != nil {
+		return err
+	}
+	f := reflect.ValueOf(system).Elem().FieldByName("storage")
+	if !f.IsValid() {
+		return fmt.Errorf("sys.System has no field 'storage'")
+	}
+	reflect.NewAt(f.Type(), unsafe.Pointer(f.UnsafeAddr())).Elem().Set(reflect.ValueOf(st))
+	s.sys, s.cr = system, cr
+	for _, n := range s.names {
+		// a fresh context per request (the jobs registered while loading capture the context they were loaded with)
+		if _, err := system.GetLocation(s.ctx(), n); err != nil {
+			return err
+		}
+	}
+	return nil
 }
 
 func (s *e2eSys) ctx() *core.Context {
@@ -91,7 +128,7 @@ func newE2E(c map[string]interface{}) (*e2eSys, error) {
 	if err != nil {
 		return nil, err
 	}
-	s := &e2eSys{sys: system, cr: cr}
+	s := &e2eSys{sys: system, cr: cr, conf: *conf, cont: *cont}
 	if l, ok := c["locs"].([]interface{}); ok {
 		for _, x := range l {
 			if n, ok := x.(string); ok {
@@ -147,6 +184,11 @@ func (s *e2eSys) step(op map[string]interface{}) map[string]interface{} {
 		return okR(true)
 	case "clear":
 		if err := s.sys.ClearLocation(ctx, name); err != nil {
+			return hookErr(errR(err))
+		}
+		return okR(true)
+	case "restart":
+		if err := s.restart(); err != nil {
 			return hookErr(errR(err))
 		}
 		return okR(true)
